@@ -776,7 +776,11 @@ func (dru *dirRepoUpload) Write(p []byte) (int, error) {
 	if dru.w == nil {
 		return 0, fmt.Errorf("writer is closed")
 	}
-	n, err := dru.w.Write(p)
+	// the digest only covers what reached the file: after a short write both still describe the same bytes
+	n, err := dru.fh.Write(p)
+	if n > 0 {
+		_, _ = dru.d.Hash().Write(p[:n])
+	}
 	dru.size += int64(n)
 	return n, err
 }
